@@ -91,6 +91,30 @@ def run(ctx) -> list[Inst]:
         # ------------------------------------------------------------ (b) relationships
         rel_calls = _calls(f, 'Relationship')
         if not rel_calls:
+            helpers = [g for g in ctx.an.reachable([f]).values() if g is not f and _calls(g, 'Relationship')]
+            # generators are not followed by the call graph when only iterated: look at module-level functions
+            # of the same module that are referenced by name in f
+            names = {x.id for x in own_nodes(f.node) if isinstance(x, ast.Name)}
+            helpers += [g for g in f.module.functions.values() if g.name in names and _calls(g, 'Relationship')
+                        and g not in helpers]
+            if helpers:
+                insts.append(Inst(RULE, fname, '(b) relationships are accumulated without loss', 'unproven',
+                                  msg=f'relationships are built in the helper {helpers[0].short}', file=rel,
+                                  line=f.node.lineno, props=PROPS))
+                # (c) still applies to what f passes on
+                rel_containers = set()
+                sg = _calls(f, 'Subgraph')
+                begin = [cfg.owner(c) for c in _calls(f, 'begin')]
+                create = [cfg.owner(c) for c in _calls(f, 'create')]
+                commit = [cfg.owner(c) for c in _calls(f, 'commit')]
+                construct = '(c) begin -> create(subgraph) -> commit on every path'
+                if len(begin) == 1 and create and commit:
+                    ok = all(cfg.postdominates(c, begin[0]) for c in (create[0], commit[0])) and \
+                        cfg.dominates(create[0], commit[0])
+                    insts.append(Inst(RULE, fname, construct, 'ok' if ok else 'violation',
+                                      msg='' if ok else 'some path from g.begin() reaches the end without create + commit',
+                                      file=rel, line=begin[0].lineno, props=PROPS))
+                continue
             raise AnalysisError(f'{fname}: no Relationship(...) construction found')
         rel_containers = set()
         for rc in rel_calls:
